@@ -224,7 +224,7 @@ func streamPure(cfg *Config, res *Result) error {
 	}
 
 	// sorting: sets of distinct cleaned paths, several permutations each
-	names := []string{"a", "b", "ab", "ä", "d€", "a.b", "0", "test"}
+	names := []string{"a", "b", "ab", "ä", "d€", "a.b", "0", "test", ".config", "-rf", "+x", "#t", "..."}
 	for i := 0; i < nSort; i++ {
 		set := map[string]struct{}{}
 		n := 1 + r.Intn(9)
@@ -271,6 +271,17 @@ func streamPure(cfg *Config, res *Result) error {
 					if isProperAncestor(least[y], least[x]) {
 						res.violate(Violation{Property: "C19", What: fmt.Sprintf("ByLeastFilePathSeparators put %q before its ancestor %q", least[x], least[y]), Case: map[string]any{"kind": "sort", "input": in}})
 					}
+				}
+			}
+			// … root last / root first
+			for x, q := range most {
+				if q == "/" && x != len(most)-1 {
+					res.violate(Violation{Property: "C19", What: fmt.Sprintf("ByMostFilePathSeparators: the root is at index %d of %q, not last", x, most), Case: map[string]any{"kind": "sort", "input": in}})
+				}
+			}
+			for x, q := range least {
+				if q == "/" && x != 0 {
+					res.violate(Violation{Property: "C19", What: fmt.Sprintf("ByLeastFilePathSeparators: the root is at index %d of %q, not first", x, least), Case: map[string]any{"kind": "sort", "input": in}})
 				}
 			}
 			km, kl := strings.Join(most, "\x00"), strings.Join(least, "\x00")
